@@ -19,6 +19,7 @@ import (
 	"errors"
 	"fmt"
 	"sync"
+	"sync/atomic"
 
 	internal "github.com/flanglet/kanzi-go/v2/internal"
 )
@@ -484,20 +485,33 @@ func (this *BWT) inverseBiPSIv2(src, dst []byte, count int) (uint, uint, error) 
 	nbTasks := min(int(this.jobs), chunks)
 	jobsPerTask, _ := internal.ComputeJobsPerTask(make([]uint, nbTasks), uint(chunks), uint(nbTasks))
 	var wg sync.WaitGroup
+	var failed int32
 
 	for j, c := 0, 0; j < nbTasks; j++ {
 		wg.Add(1)
 		start := c * ckSize
 
 		go func(dst []byte, buckets []int, fastBits []uint16, indexes []uint, total, start, ckSize, firstChunk, lastChunk int) {
+			defer wg.Done()
+
+			defer func() {
+				// Invalid data (e.g. corrupted primary index) must not kill the process
+				if r := recover(); r != nil {
+					atomic.StoreInt32(&failed, 1)
+				}
+			}()
+
 			this.inverseBiPSIv2Task(dst, buckets, fastBits, indexes, total, start, ckSize, firstChunk, lastChunk)
-			wg.Done()
 		}(dst, buckets[:], fastBits, this.primaryIndexes[:], count, start, ckSize, c, c+int(jobsPerTask[j]))
 
 		c += int(jobsPerTask[j])
 	}
 
 	wg.Wait()
+
+	if atomic.LoadInt32(&failed) != 0 {
+		return 0, 0, errors.New("Inverse BWT failed: invalid data")
+	}
 
 	dst[count-1] = byte(lastc)
 	return uint(count), uint(count), nil
